@@ -23,6 +23,10 @@ def items(tier, seed):
         out += [("idcode-%d" % n, {"n": n}), ("surv-identity-%d" % n, {"n": n}), ("fs-%d" % n, {"n": n}),
                 ("dr-%d" % n, {"n": n}), ("um-%d" % n, {"n": n}), ("capability-%d" % n, {"n": n})]
     out += [("interrogator-56", {"n": 56}), ("emergency_squawk", {})]
+    # history mode (harness.decide): the same call on an earlier frame first (same frame / other identity code / other DF)
+    out += [("idcode-112@after:ID", {"n": 112}), ("idcode-56@after:ID", {"n": 56}), ("surv-identity-56@after:ID+DF", {"n": 56}),
+            ("fs-56@after:", {"n": 56}), ("dr-112@after:DF", {"n": 112}), ("um-56@after:", {"n": 56}),
+            ("capability-56@after:DF", {"n": 56}), ("emergency_squawk@after:ID", {})]
     return out
 
 
